@@ -1800,4 +1800,382 @@ example : evalFilters (compile exWl exOpts exPolicies) exReq = true := by decide
 example : specDecision exWl exOpts.bundle exPolicies exReq = true := by decide
 
 
+
+/-! ## 15. CUSTOM action -/
+
+theorem insertSorted_mem (x : Str) (l : List Str) (y : Str) : y ∈ insertSorted x l ↔ y = x ∨ y ∈ l := by
+  induction l with
+  | nil => simp [insertSorted]
+  | cons a t ih =>
+    simp only [insertSorted]
+    split
+    · simp only [List.mem_cons, ih]
+      constructor
+      · rintro (h | h | h)
+        · exact Or.inr (Or.inl h)
+        · exact Or.inl h
+        · exact Or.inr (Or.inr h)
+      · rintro (h | h | h)
+        · exact Or.inr (Or.inl h)
+        · exact Or.inl h
+        · exact Or.inr (Or.inr h)
+    · simp
+
+theorem insertSorted_length (x : Str) (l : List Str) : (insertSorted x l).length = l.length + 1 := by
+  induction l with
+  | nil => rfl
+  | cons a t ih =>
+    simp only [insertSorted]
+    split <;> simp [ih]
+
+theorem foldr_insertSorted_mem (l : List Str) (y : Str) : y ∈ l.foldr insertSorted [] ↔ y ∈ l := by
+  induction l with
+  | nil => simp
+  | cons a t ih => simp only [List.foldr_cons, insertSorted_mem, ih, List.mem_cons]
+
+theorem foldr_insertSorted_length (l : List Str) : (l.foldr insertSorted []).length = l.length := by
+  induction l with
+  | nil => rfl
+  | cons a t ih => simp only [List.foldr_cons, insertSorted_length, ih, List.length_cons]
+
+theorem dedupStr_mem (l : List Str) (y : Str) : y ∈ dedupStr l ↔ y ∈ l := by
+  induction l with
+  | nil => simp [dedupStr]
+  | cons a t ih =>
+    simp only [dedupStr, List.mem_cons, List.mem_filter, ih, bne_iff_ne, ne_eq]
+    constructor
+    · rintro (h | ⟨h, -⟩)
+      · exact Or.inl h
+      · exact Or.inr h
+    · rintro (h | h)
+      · exact Or.inl h
+      · by_cases hy : y = a
+        · exact Or.inl hy
+        · exact Or.inr ⟨h, hy⟩
+
+theorem dedupStr_nodup (l : List Str) : (dedupStr l).Nodup := by
+  induction l with
+  | nil => simp [dedupStr]
+  | cons a t ih =>
+    simp only [dedupStr, List.nodup_cons]
+    refine ⟨?_, ih.filter _⟩
+    simp
+
+theorem sortDedup_mem (l : List Str) (y : Str) : y ∈ sortDedup l ↔ y ∈ l := by
+  unfold sortDedup
+  rw [foldr_insertSorted_mem, dedupStr_mem]
+
+/-- More than one distinct name. -/
+theorem sortDedup_length_gt_one (l : List Str) :
+    (sortDedup l).length > 1 ↔ ∃ a ∈ l, ∃ b ∈ l, a ≠ b := by
+  unfold sortDedup
+  rw [foldr_insertSorted_length]
+  have hn := dedupStr_nodup l
+  constructor
+  · intro h
+    cases hd : dedupStr l with
+    | nil => rw [hd] at h; simp at h
+    | cons x t =>
+      cases t with
+      | nil => rw [hd] at h; simp at h
+      | cons y t' =>
+        rw [hd] at hn
+        refine ⟨x, (dedupStr_mem l x).1 (by rw [hd]; simp), y, (dedupStr_mem l y).1 (by rw [hd]; simp), ?_⟩
+        simp only [List.nodup_cons, List.mem_cons, not_or] at hn
+        exact hn.1.1
+  · rintro ⟨a, ha, b, hb, hab⟩
+    have ha' := (dedupStr_mem l a).2 ha
+    have hb' := (dedupStr_mem l b).2 hb
+    cases hd : dedupStr l with
+    | nil => rw [hd] at ha'; simp at ha'
+    | cons x t =>
+      cases t with
+      | nil =>
+        rw [hd] at ha' hb'
+        simp only [List.mem_singleton] at ha' hb'
+        exact absurd (ha'.trans hb'.symm) hab
+      | cons y t' => simp
+
+/-- Regrouping by provider: every policy belongs to exactly the group of its provider. -/
+theorem any_by_provider (provs : List Str) (l : List Policy) (q f : Policy → Bool) (g : Str → Bool)
+    (hcover : ∀ p ∈ l, p.provider ∈ provs) :
+    provs.any (fun pr => g pr && (l.filter fun p => p.provider == pr && q p).any f) =
+      (l.filter q).any (fun p => g p.provider && f p) := by
+  rw [Bool.eq_iff_iff]
+  simp only [List.any_eq_true, Bool.and_eq_true, List.mem_filter, beq_iff_eq]
+  constructor
+  · rintro ⟨pr, _, hg, p, ⟨hp, rfl, hq⟩, hf⟩
+    exact ⟨p, ⟨hp, hq⟩, hg, hf⟩
+  · rintro ⟨p, ⟨hp, hq⟩, hg, hf⟩
+    exact ⟨p.provider, hcover p hp, hg, p, ⟨hp, rfl, hq⟩, hf⟩
+
+theorem customEntries_any (o : BuildOpts) (p : Policy) (req : Request) :
+    (customEntries o p).any (fun e => evalPolicy e.2 req) = compiledPolicyMatch o false req p := by
+  unfold customEntries
+  rw [List.any_map]
+  exact policyEntries_any o false p req
+
+/-- The names of the generated CUSTOM policies are pairwise distinct. -/
+def CustomEntriesDistinct (o : BuildOpts) (ps : List Policy) : Prop :=
+  (((ps.filter (·.action == .custom)).flatMap (customEntries o)).map (·.1)).Nodup
+
+theorem providerRules_any (o : BuildOpts) (cps : List Policy) (prov : Str) (req : Request)
+    (hnd : ((cps.flatMap (customEntries o)).map (·.1)).Nodup) :
+    (providerRules o cps prov).any (fun e => evalPolicy e.2 req) =
+      (cps.filter fun p => p.provider == prov && !p.dryRun).any (compiledPolicyMatch o false req) := by
+  unfold providerRules
+  rw [upsertAll_eq]
+  · simp only [List.nil_append, List.any_flatMap, customEntries_any]
+  · simp only [List.nil_append]
+    exact List.Nodup.sublist ((flatMap_filter_sublist _ _ cps).map _) hnd
+
+theorem eval_badCustomFilter (o : BuildOpts) (cps : List Policy) (prov : Str) (req : Request)
+    (hnd : ((cps.flatMap (customEntries o)).map (·.1)).Nodup) :
+    evalFilter (badCustomFilter o cps prov) req =
+      !((cps.filter fun p => p.provider == prov && !p.dryRun).any (compiledPolicyMatch o false req)) := by
+  unfold badCustomFilter evalFilter evalRBAC
+  simp only [List.any_map, Function.comp_def]
+  rw [providerRules_any o cps prov req hnd]
+
+theorem eval_customFilters (o : BuildOpts) (cps : List Policy) (prov : Str) (req : Request) :
+    evalGs (customFilters o cps prov) req = true := by
+  simp [customFilters, evalGs, evalG, evalFilter]
+
+theorem not_any_eq_all_not {α : Type} (l : List α) (f : α → Bool) : (!l.any f) = l.all (fun x => !f x) := by
+  induction l with
+  | nil => rfl
+  | cons a t ih => simp [← ih]
+
+/-- **CUSTOM.** The filters of the CUSTOM builder reject a request exactly when it matches (the
+    generated rules of) an enforced CUSTOM policy that has to be enforced as DENY: provider not
+    defined, or several providers without the multi-provider feature. With defined providers they
+    never reject (shadow rules + ext_authz only). -/
+theorem custom_correct_compiled (o : BuildOpts) (c : CustomOpts) (ps : List Policy) (req : Request)
+    (hnd : CustomEntriesDistinct o ps) :
+    evalGs (compileCustomSelected o c ps) req =
+      !((enforced .custom ps).any fun p => customBad c ps p && compiledPolicyMatch o false req p) := by
+  unfold CustomEntriesDistinct at hnd
+  have henf : enforced .custom ps = (ps.filter (·.action == .custom)).filter (fun p => !p.dryRun) :=
+    (filter_action_dry .custom ps).symm
+  generalize hcps : ps.filter (·.action == .custom) = cps at *
+  unfold compileCustomSelected
+  rw [hcps]
+  by_cases hempty : cps.isEmpty = true
+  · have : cps = [] := by simpa using hempty
+    subst this
+    simp [henf, evalGs]
+  · have hempty' : cps.isEmpty = false := by simpa using hempty
+    simp only [hempty', Bool.false_eq_true, if_false]
+    have hcover : ∀ p ∈ cps, p.provider ∈ sortDedup (cps.map (·.provider)) := by
+      intro p hp
+      rw [sortDedup_mem]
+      exact List.mem_map.2 ⟨p, hp, rfl⟩
+    have hmany : ((sortDedup (cps.map (·.provider))).length > 1) ↔
+        cps.any (fun a => cps.any fun b => a.provider != b.provider) = true := by
+      rw [sortDedup_length_gt_one]
+      simp only [List.any_eq_true, bne_iff_ne, ne_eq, List.mem_map]
+      constructor
+      · rintro ⟨_, ⟨a, ha, rfl⟩, _, ⟨b, hb, rfl⟩, hab⟩
+        exact ⟨a, ha, b, hb, hab⟩
+      · rintro ⟨a, ha, b, hb, hab⟩
+        exact ⟨_, ⟨a, ha, rfl⟩, _, ⟨b, hb, rfl⟩, hab⟩
+    have hbad : ∀ p, customBad c ps p =
+        ((cps.any (fun a => cps.any fun b => a.provider != b.provider) && !c.multi) ||
+          !c.providers.contains p.provider) := by
+      intro p; unfold customBad; simp only [hcps]
+    by_cases hm : (decide ((sortDedup (cps.map (·.provider))).length > 1) && !c.multi) = true
+    · simp only [hm, if_true]
+      have hm' : (cps.any (fun a => cps.any fun b => a.provider != b.provider) && !c.multi) = true := by
+        simp only [Bool.and_eq_true, decide_eq_true_eq] at hm ⊢
+        exact ⟨hmany.1 hm.1, hm.2⟩
+      have hmap : evalGs ((sortDedup (cps.map (·.provider))).map fun pr => GFilter.rbac (badCustomFilter o cps pr)) req =
+          (sortDedup (cps.map (·.provider))).all fun pr =>
+            !((cps.filter fun p => p.provider == pr && !p.dryRun).any (compiledPolicyMatch o false req)) := by
+        unfold evalGs
+        rw [List.all_map]
+        apply List.all_congr rfl
+        intro pr
+        show evalFilter (badCustomFilter o cps pr) req = _
+        exact eval_badCustomFilter o cps pr req hnd
+      rw [hmap, ← not_any_eq_all_not]
+      congr 1
+      have := any_by_provider (sortDedup (cps.map (·.provider))) cps (fun p => !p.dryRun)
+        (compiledPolicyMatch o false req) (fun _ => true) hcover
+      simp only [Bool.true_and] at this
+      rw [this, henf]
+      apply any_congr_mem
+      intro p _
+      rw [hbad, hm']; rfl
+    · have hmf : (decide ((sortDedup (cps.map (·.provider))).length > 1) && !c.multi) = false := by
+        simpa using hm
+      simp only [hmf, Bool.false_eq_true, if_false]
+      have hm' : (cps.any (fun a => cps.any fun b => a.provider != b.provider) && !c.multi) = false := by
+        rw [Bool.eq_false_iff]
+        intro h
+        apply hm
+        simp only [Bool.and_eq_true, decide_eq_true_eq] at h ⊢
+        exact ⟨hmany.2 h.1, h.2⟩
+      unfold evalGs
+      rw [List.all_flatMap]
+      have hper : ∀ pr, (if c.providers.contains pr = true then customFilters o cps pr
+            else [GFilter.rbac (badCustomFilter o cps pr)]).all (evalG · req) =
+          !(!c.providers.contains pr &&
+            (cps.filter fun p => p.provider == pr && !p.dryRun).any (compiledPolicyMatch o false req)) := by
+        intro pr
+        by_cases hk : c.providers.contains pr = true
+        · have := eval_customFilters o cps pr req
+          simp only [evalGs] at this
+          rw [if_pos hk, this, hk]
+          rfl
+        · have hk' : c.providers.contains pr = false := by simpa using hk
+          simp only [hk', Bool.false_eq_true, if_false, List.all_cons, List.all_nil, Bool.and_true,
+            Bool.not_false, Bool.true_and]
+          show evalFilter (badCustomFilter o cps pr) req = _
+          exact eval_badCustomFilter o cps pr req hnd
+      rw [List.all_congr rfl (fun pr => hper pr), ← not_any_eq_all_not]
+      congr 1
+      rw [any_by_provider (sortDedup (cps.map (·.provider))) cps (fun p => !p.dryRun)
+        (compiledPolicyMatch o false req) (fun pr => !c.providers.contains pr) hcover, henf]
+      apply any_congr_mem
+      intro p _
+      rw [hbad, hm', Bool.false_or]
+
+
+theorem expandPolicy_fields (b : List Str) (p : Policy) :
+    (expandPolicy b p).action = p.action ∧ (expandPolicy b p).provider = p.provider ∧
+    (expandPolicy b p).dryRun = p.dryRun := ⟨rfl, rfl, rfl⟩
+
+theorem customBad_expand (c : CustomOpts) (b : List Str) (ps : List Policy) (p : Policy) :
+    customBad c (ps.map (expandPolicy b)) (expandPolicy b p) = customBad c ps p := by
+  unfold customBad
+  simp only [List.filter_map, List.any_map, Function.comp_def]
+  rfl
+
+/-- `customDenies` over the alias-expanded policies, spelled out. -/
+theorem customDenies_expand (c : CustomOpts) (b : List Str) (ps : List Policy) (req : Request) :
+    customDenies c (ps.map (expandPolicy b)) req =
+      (enforced .custom ps).any fun p => customBad c ps p && policyMatchesX b p req := by
+  unfold customDenies
+  simp only [enforced_expand, List.any_map, Function.comp_def, customBad_expand, policyMatches_expand]
+
+/-- CUSTOM, against the policy semantics (everything translatable). -/
+theorem custom_correct_selected (o : BuildOpts) (c : CustomOpts) (ps : List Policy) (req : Request)
+    (h : Hyps o ps req) (htr : Translatable o ps) (hnd : CustomEntriesDistinct o ps) :
+    evalGs (compileCustomSelected o c ps) req = !(customDenies c (ps.map (expandPolicy o.bundle)) req) := by
+  rw [custom_correct_compiled o c ps req hnd, customDenies_expand]
+  congr 1
+  apply any_congr_mem
+  intro p hp
+  have hp' := enforced_subset _ _ p hp
+  congr 1
+  unfold compiledPolicyMatch policyMatchesX
+  apply any_congr_mem
+  intro r hr
+  exact ruleVerdict_exact o false req p r (h.mig p hp' r hr) (h.exact p hp' r hr) (htr p hp' r hr)
+
+/-- CUSTOM, never more permissive (nothing assumed translatable). -/
+theorem custom_sound_selected (o : BuildOpts) (c : CustomOpts) (ps : List Policy) (req : Request)
+    (h : Hyps o ps req) (hnd : CustomEntriesDistinct o ps)
+    (hc : evalGs (compileCustomSelected o c ps) req = true) :
+    customDenies c (ps.map (expandPolicy o.bundle)) req = false := by
+  rw [custom_correct_compiled o c ps req hnd] at hc
+  rw [customDenies_expand]
+  cases hx : (enforced .custom ps).any (fun p => customBad c ps p && policyMatchesX o.bundle p req) with
+  | false => rfl
+  | true =>
+    have := any_mono_mem _ _ (fun p => customBad c ps p && compiledPolicyMatch o false req p) (fun p hp hpm => by
+      have hp' := enforced_subset _ _ p hp
+      simp only [Bool.and_eq_true] at hpm ⊢
+      refine ⟨hpm.1, ?_⟩
+      have hm := hpm.2
+      unfold policyMatchesX at hm
+      unfold compiledPolicyMatch
+      rw [List.any_eq_true] at hm ⊢
+      obtain ⟨r, hr, hrm⟩ := hm
+      exact ⟨r, hr, ruleVerdict_deny_ge o req p r (h.mig p hp' r hr) (h.exact p hp' r hr) hrm⟩) hx
+    rw [this] at hc; cases hc
+
+theorem evalGs_append (a b : List GFilter) (req : Request) :
+    evalGs (a ++ b) req = (evalGs a req && evalGs b req) := by simp [evalGs]
+
+theorem evalGs_rbac (fs : List Filter) (req : Request) : evalGs (fs.map .rbac) req = evalFilters fs req := by
+  unfold evalGs evalFilters
+  rw [List.all_map]
+  rfl
+
+/-- **The whole authorization chain on HTTP** (CUSTOM filters, then AUDIT, DENY, ALLOW) decides as
+    the policy semantics say. -/
+theorem compile_all_correct_http (w : Workload) (o : BuildOpts) (c : CustomOpts) (ps : List Policy)
+    (req : Request) (_hhttp : o.forTCP = false)
+    (h : Hyps o (selectPolicies w ps) req) (htr : Translatable o (selectPolicies w ps))
+    (hnd : CustomEntriesDistinct o (selectPolicies w ps)) :
+    evalGs (compileAll w o c ps) req = specDecisionAll w o.bundle c ps req := by
+  unfold compileAll specDecisionAll
+  rw [evalGs_append, evalGs_rbac]
+  have hsel : ps.filter (applies w) = selectPolicies w ps := rfl
+  rw [hsel, custom_correct_selected o c _ req h htr hnd]
+  congr 1
+  exact compile_correct_selected o (selectPolicies w ps) req h htr
+
+/-- ... and on any chain it is never more permissive than the policy. -/
+theorem compile_all_failclosed (w : Workload) (o : BuildOpts) (c : CustomOpts) (ps : List Policy)
+    (req : Request) (h : Hyps o (selectPolicies w ps) req)
+    (hnd : CustomEntriesDistinct o (selectPolicies w ps))
+    (hc : evalGs (compileAll w o c ps) req = true) : specDecisionAll w o.bundle c ps req = true := by
+  unfold compileAll at hc
+  unfold specDecisionAll
+  rw [evalGs_append, evalGs_rbac, Bool.and_eq_true] at hc
+  have hsel : ps.filter (applies w) = selectPolicies w ps := rfl
+  rw [hsel, custom_sound_selected o c _ req h hnd hc.1]
+  exact compile_sound_selected o (selectPolicies w ps) req h hc.2
+
+/-- The defect repaired in /repo (commit "fix: do not put dry-run CUSTOM ..."): before the fix the
+    dry-run CUSTOM policies of a provider were emitted as the ENFORCED `rules` of the RBAC filter with
+    action DENY. -/
+def customFiltersUnfixed (o : BuildOpts) (cps : List Policy) (prov : Str) : List GFilter :=
+  [ .rbac { name := rbacFilterName o.forTCP,
+            rules := some ⟨.deny, upsertAll [] ((cps.filter fun p => p.provider == prov && p.dryRun).flatMap (customEntries o))⟩,
+            shadow := some ⟨.deny, providerRules o cps prov⟩,
+            shadowPrefix := "istio_ext_authz_".toList, statPrefix := [] } ]
+
+def dryRunCustomPolicy : Policy :=
+  { ns := "foo".toList, name := "c2".toList, action := .custom, dryRun := true, provider := "default".toList,
+    rules := [ { tos := [ { paths := ["/dry*".toList] } ] } ] }
+
+def dryRunCustomReq : Request :=
+  { srcIP := 1, remoteIP := 1, dstIP := 2, dstPort := 80, sni := [], peer := none,
+    http := some { host := "example.com".toList, method := "GET".toList, path := "/dry/run".toList, headers := [] },
+    metadata := [] }
+
+/-- Old behaviour: a dry-run CUSTOM policy REJECTED the requests it matches (here `/dry/run`), while
+    the policy semantics admit them. Witness replayed on the real code: corpus
+    `requests.custom-dryrun.ops`. -/
+theorem custom_dryrun_witness_unfixed :
+    evalGs (customFiltersUnfixed exOpts [dryRunCustomPolicy] "default".toList) dryRunCustomReq = false ∧
+    specDecisionAll exWl exOpts.bundle { providers := ["default".toList], multi := false }
+      [dryRunCustomPolicy] dryRunCustomReq = true ∧
+    evalGs (compileAll exWl exOpts { providers := ["default".toList], multi := false }
+      [dryRunCustomPolicy]) dryRunCustomReq = true := by decide
+
+/-- All hypotheses incl. the CUSTOM part, as one computable check. -/
+theorem customEntriesDistinct_of_B (o : BuildOpts) (ps : List Policy) (h : customEntriesDistinctB o ps = true) :
+    CustomEntriesDistinct o ps := by
+  unfold customEntriesDistinctB at h
+  unfold CustomEntriesDistinct
+  exact of_decide_eq_true h
+
+theorem compile_all_correct_http_checked (w : Workload) (o : BuildOpts) (c : CustomOpts) (ps : List Policy)
+    (req : Request) (hhttp : o.forTCP = false)
+    (h : hypsAllB o (selectPolicies w ps) req = true) (htr : translatableB o (selectPolicies w ps) = true) :
+    evalGs (compileAll w o c ps) req = specDecisionAll w o.bundle c ps req := by
+  simp only [hypsAllB, Bool.and_eq_true] at h
+  exact compile_all_correct_http w o c ps req hhttp (hyps_of_B _ _ _ h.1) (translatable_of_B _ _ htr)
+    (customEntriesDistinct_of_B _ _ h.2)
+
+theorem compile_all_failclosed_checked (w : Workload) (o : BuildOpts) (c : CustomOpts) (ps : List Policy)
+    (req : Request) (h : hypsAllB o (selectPolicies w ps) req = true)
+    (hc : evalGs (compileAll w o c ps) req = true) : specDecisionAll w o.bundle c ps req = true := by
+  simp only [hypsAllB, Bool.and_eq_true] at h
+  exact compile_all_failclosed w o c ps req (hyps_of_B _ _ _ h.1) (customEntriesDistinct_of_B _ _ h.2) hc
+
 end IstioModel.C08
